@@ -438,7 +438,7 @@ for n in (0, 1, 2):
 # ------------------------------------------------------------------ C15
 EVALF = "src/debugger/eval.rs"
 EVAL_STUBS = [FMT, SYM, PRINT, "AsmParser::new_simple -> parser over the harness's token vector (lexing is C05)",
-              "RunState::execute -> recorder (word, PC); what the word does is C02", EXIT,
+              "RunState::execute -> recorder (word, PC) that applies an arbitrary effect (new PC, one register) standing for the instruction's effect (C02)", EXIT,
               "error::parse_generic_unexpected / parse_lit_range / parse_eof -> contract stubs"]
 prop(
     "C15",
@@ -581,12 +581,9 @@ for pp in ("C09", "C16"):
       allow_unsat=["in-bounds instruction"],
       functions=["RunEnvironment::run (debugger branch)"], what="next_action answering ExitProgram: run() returns with the machine untouched", bounds="one iteration")
 
-for nm, what in [("c15_eval_ret_real", "eval RET with the real VM: PC becomes R7, nothing else changes"),
-                 ("c15_eval_jmp_real", "eval JMP r with the real VM: PC becomes r")]:
-    H("C15", f"debugger::eval::verif_h::{nm}", EVALF, uf=True, covers=1, timeout=3000, mem_gb=24,
-      stubs=[FMT, SYM, PRINT, EXIT, "AsmParser::new_simple -> parser over the harness's token vector", "RunState::trap / RunState::stack -> path cut (not reachable from RET/JMP)",
-             "error::parse_generic_unexpected / parse_lit_range / parse_eof -> contract stubs"],
-      functions=["eval_inner", "RunState::execute", "RunState::jmp", "AsmLine::emit"], what=what, bounds="one eval")
+H("C15", "debugger::eval::verif_h::c15_eval_jumps", EVALF, replayable=False, covers=2, stubs=EVAL_STUBS, timeout=3000, mem_gb=30,
+  functions=["eval_inner", "AsmParser::parse_simple", "AsmLine::emit"], what="eval RET / JMP r / JSRR r: executed once as their encoding; the PC the execution sets survives eval",
+  bounds="one eval")
 H("C17", "debugger::asm::verif_h::c17_show_single_line_multibyte", ASMF, covers=1, timeout=2400, stubs=[FMT, "Output::print_fmt -> capture sink (both channels)"],
   functions=["AsmSource::show_single_line", "AsmSource::get_source_statement"], what="assembly <addr> (minimal) prints exactly the statement's bytes when multi-byte characters precede it",
   bounds="fixed 12-byte source with a 2-byte and a 4-byte character; 2 statements; symbolic origin")
